@@ -6,22 +6,19 @@ CONSTANTS
   ElasticityMax = 0
   DenominatorMax = 0
   MinGasPrices = {}
-  InitBases = {"0", "7", "20"}
-  InitMaxGases = {"-1", "24"}
-  ParamSets <- MC_ParamSets
+  InitBases = {"7", "20"}
+  InitMaxGases = {"24"}
+  ParamSets <- MC_ParamSets_quick
   Gases = {"0", "6", "24"}
   Useds = {"0", "5", "24"}
-  SetMaxGases = {"8", "0"}
+  SetMaxGases = {"8"}
   SetBases = {"1"}
   MaxAnte = 2
-  MaxBlocks = 6
-  MaxSets = 1
-  MaxBounds = 0
+  MaxBlocks = 3
+  MaxSets = 0
+  MaxBounds = 2
   MaxLen = 0
-  Defects = {}
-INVARIANT MInv_Shape
-INVARIANT MInv_Ghost
-PROPERTY MStep_P
+  Defects = {"import-drops-gas-figure"}
 PROPERTY MSeq_P
 VIEW View
 CHECK_DEADLOCK FALSE
